@@ -15,6 +15,7 @@ import (
 	"os"
 	"path/filepath"
 	"reflect"
+	"regexp"
 	"sort"
 	"strings"
 	"time"
@@ -163,6 +164,7 @@ type trWorld struct {
 	outcomes []string
 	last     uint64 // epoch of the last planned publication
 	closed   bool
+	broken   bool // the sequential setup panicked
 }
 
 func (w *trWorld) bad(s string) { w.viol[s] = true }
@@ -398,36 +400,48 @@ func (w *trWorld) introducer() {
 
 var trValidated = map[string]bool{}
 
-func trValidateCut(t *trace.C5TTable) {
-	pOrder, pGot, pErr := t.QueryPipeline()
-	if pErr != nil {
-		panic(fmt.Sprintf("c05/trace: reference pipeline failed: %v", pErr))
+// trValidateCut runs, on the quiescent initial table and outside the controlled execution, the ordered query through
+// the unmodified goroutine pipeline of trace.Query's default arm and through the harness's cuts of the unfenced and
+// the fenced path. All three must return the reference content in index order.
+func (w *trWorld) validateCut(st *trState) {
+	var wantOrder []string
+	for _, p := range st.parts {
+		wantOrder = append(wantOrder, st.sidx[p.ID]...)
 	}
+	check := func(what string, order []string, got map[string][]trace.C5TObs, err error) {
+		ok := err == nil && reflect.DeepEqual(order, wantOrder)
+		for _, id := range wantOrder {
+			ids, intact := trSpansOf(got[id])
+			ok = ok && intact && reflect.DeepEqual(ids, st.core[id])
+		}
+		if !ok {
+			w.bad("setup: the ordered query (" + what + ") on the quiescent initial table does not return the reference content")
+		}
+	}
+	order, got, err := w.t.QueryPipeline()
+	check("unmodified pipeline of the default arm", order, got, err)
 	for _, kind := range []string{"U", "F"} {
-		q := t.NewQuery()
-		var err error
+		q := w.t.NewQuery()
 		if kind == "F" {
 			err = q.Fenced()
-		} else {
-			if err = q.Phase1(nil); err == nil {
-				err = q.Phase2()
-			}
+		} else if err = q.Phase1(nil); err == nil {
+			err = q.Phase2()
 		}
 		if err != nil {
-			panic(fmt.Sprintf("c05/trace: cut %s failed: %v", kind, err))
+			q.Abort()
+			check("harness cut "+kind, nil, nil, err)
+			continue
 		}
-		var order []string
-		var got map[string][]trace.C5TObs
 		if kind == "F" {
 			order, got, err = q.PullVectorized()
 		} else {
 			order, got, err = q.PullDefault()
 		}
-		if err != nil || !reflect.DeepEqual(order, pOrder) || !reflect.DeepEqual(got, pGot) || len(order) == 0 {
-			panic(fmt.Sprintf("c05/trace: the harness cut %s of the ordered query disagrees with the real pipeline: %v %v / %v %v (err %v)", kind, order, got, pOrder, pGot, err))
-		}
+		check("harness cut "+kind, order, got, err)
 	}
 }
+
+var trDigits = regexp.MustCompile(`0x[0-9a-f]+|[0-9]+`)
 
 func trSetup(sc scenario, seq *int) sched.Harness {
 	// run.Go / run.GoOrDie bodies (pkg/run/goroutine.go, rewrite mode fsgo) are plain goroutines while the harness
@@ -436,6 +450,53 @@ func trSetup(sc scenario, seq *int) sched.Harness {
 	*seq++
 	dir := filepath.Join(base, fmt.Sprintf("tr%d", *seq))
 	w := &trWorld{dir: dir, sc: sc.Name, viol: map[string]bool{}, ref: map[uint64]*trState{}, sidxOK: map[string]uint64{}}
+	var threads []func()
+	func() {
+		defer func() {
+			if p := recover(); p != nil {
+				// the real code failed without any concurrency: a verdict, not a harness error
+				w.broken = true
+				threads = nil
+				w.bad("setup: the real code panicked while the initial state / the flush and merge files were built sequentially: " +
+					trDigits.ReplaceAllString(firstLine(fmt.Sprint(p)), "#"))
+			}
+		}()
+		threads = w.build(sc)
+	}()
+	if !w.broken {
+		vos.VerifStart(false)
+	}
+	return sched.Harness{
+		Threads: threads,
+		Check: func(res *sched.Result) []string {
+			vos.VerifStop()
+			if res.Abort == "" && !w.broken {
+				w.final()
+			}
+			keys := make([]string, 0, len(w.viol))
+			for k := range w.viol {
+				keys = append(keys, k)
+			}
+			sort.Strings(keys)
+			trStats(w, res)
+			return keys
+		},
+		Cleanup: func() {
+			vos.VerifStop()
+			if !w.closed {
+				func() {
+					defer func() { _ = recover() }()
+					w.t.Close()
+				}()
+			}
+			_ = os.RemoveAll(dir)
+		},
+	}
+}
+
+// build constructs the initial state, the introducer's prepared steps, the reference model and the threads.
+func (w *trWorld) build(sc scenario) []func() {
+	dir := w.dir
 	// initial state, built by the real code: file parts 1, 2 (+ their index file parts) and memory part 3
 	t := trace.C5TOpen(filepath.Join(dir, "t"), trSegStart, trSegEnd)
 	w.t = t
@@ -458,10 +519,9 @@ func trSetup(sc scenario, seq *int) sched.Harness {
 		}
 	}
 	if !trValidated[sc.Name] {
-		// once per worker and scenario, outside the controlled execution: the harness's cut of the unfenced path must
-		// return what the unmodified goroutine pipeline of trace.Query returns on the same quiescent table
-		trValidated[sc.Name] = true
-		trValidateCut(t)
+		// once per worker and scenario (its violation, if any, is re-established by the engine's replays)
+		w.validateCut(st)
+		trValidated[sc.Name] = len(w.viol) == 0
 	}
 	e := t.NextEpoch() - 1
 	w.ref[e] = st
@@ -542,33 +602,7 @@ func trSetup(sc scenario, seq *int) sched.Harness {
 			panic("unknown role " + r)
 		}
 	}
-	vos.VerifStart(false)
-	return sched.Harness{
-		Threads: threads,
-		Check: func(res *sched.Result) []string {
-			vos.VerifStop()
-			if res.Abort == "" {
-				w.final()
-			}
-			keys := make([]string, 0, len(w.viol))
-			for k := range w.viol {
-				keys = append(keys, k)
-			}
-			sort.Strings(keys)
-			trStats(w, res)
-			return keys
-		},
-		Cleanup: func() {
-			vos.VerifStop()
-			if !w.closed {
-				func() {
-					defer func() { _ = recover() }()
-					w.t.Close()
-				}()
-			}
-			_ = os.RemoveAll(dir)
-		},
-	}
+	return threads
 }
 
 // final: quiescence. Every thread has finished; nothing is pinned.
@@ -760,9 +794,5 @@ func init() {
 		{Name: "trace-abandon", Roles: []string{"qU", "I:abandon,add"}},
 		{Name: "trace-close", Roles: []string{"qU", "qF", "close"}},
 		{Name: "trace-all-F", Roles: []string{"qF", "I:add,flush,merge"}, ThoroughOnly: true},
-		{Name: "trace-held-all", Roles: []string{"qH", "I:add,flush,merge"}, ThoroughOnly: true},
-		{Name: "trace-flush", Roles: []string{"qU", "I:flush", "qF"}, ThoroughOnly: true},
-		{Name: "trace-sync", Roles: []string{"qF", "I:sync", "qF"}, ThoroughOnly: true},
-		{Name: "trace-abandon-F", Roles: []string{"qU", "I:abandon,add", "qF"}, ThoroughOnly: true},
 	}})
 }
